@@ -41,7 +41,7 @@ func crashParams(thorough bool, seed uint64) harness.CrashParams {
 		for i := 1; i < 84; i++ {
 			cuts = append(cuts, i)
 		}
-		return harness.CrashParams{MaxFull: 7, Random: 40, TornCuts: cuts, SuffixEvery: 12, MaxImages: 20000, Seed: seed, RecrashEvery: 30}
+		return harness.CrashParams{MaxFull: 7, Random: 40, TornCuts: cuts, SuffixEvery: 12, MaxImages: 20000, Seed: seed, RecrashEvery: 150}
 	}
 	return harness.CrashParams{MaxFull: 5, Random: 6, TornCuts: []int{1, 20, 40, 60, 83}, SuffixEvery: 50, MaxImages: 12000, Seed: seed, RecrashEvery: 120}
 }
